@@ -57,6 +57,22 @@ T = {
  'C08-4': ('stop(code) on a non-running manager reaches the trailing raise SystemExit(code)', 'non-None code given to stop() on a manager that is not running / already stopping'),
  'C09-3': ('unregister_pending guard removed from the due branch', 'timer due during the two iterations its unregistration takes'),
  'C09-4': ('reset() writes expiry = now and then += interval', 'reset() from another thread with the loop testing the timer between the two assignments (or mktime raising)'),
+ 'C10-3': ('Select._preenDescriptors guards its probe with `except OSError` instead of `except Exception`', 'socket object closed while still registered (fileno -1 -> ValueError): Select never reports any descriptor again'),
+ 'C10-4': ('EPoll._process flattened into if hang-up / elif EPOLLIN / elif EPOLLOUT', 'descriptor readable and writable at once: _write is dropped while it stays readable'),
+ 'C11-3': ('Server._write re-queues a transiently refused payload with write() (append) instead of appendleft', 'two payloads buffered and a transient errno on the front one: reordered'),
+ 'C11-4': ('Client._write offers send() only data[:1 MiB] and compares with the slice length', 'payload larger than 1 MiB and a send() that accepts the whole slice: the rest is dropped'),
+ 'C12-3': ('Server.close no longer skips sockets that are neither the listener nor a client', 'late close(sock) after the connection is gone: buffer entry re-created'),
+ 'C12-4': ('Server._read no longer ignores sockets that are not clients any more', 'Select round reporting a socket readable and writable where the writable side ends the connection: error event after disconnect'),
+ 'C14-3': ('_on_disconnect drops the parser only when the connection has no request/response pair', 'disconnect while headers are complete and the body outstanding'),
+ 'C14-4': ('_parse_headers marks the headers complete before validating the lines', 'invalid header line (after Host for HTTP/1.1): errno set but message treated as good, dispatched and answered 200'),
+ 'C15-3': ('Content-Length of a list body counts characters instead of encoded bytes', 'list body with a non-ASCII str element, streaming off'),
+ 'C15-4': ('the HEAD early return of _on_response comes after the streaming branch', 'HEAD of a streamed resource (file object, static file): body sent'),
+ 'C17-3': ('the break after handling a close frame is removed', 'complete data frame right behind the close frame in the same read: delivered after close'),
+ 'C17-4': ('16-bit length encoding used up to 65536 inclusive', 'written message of exactly 65536 bytes'),
+ 'C18-3': ('server-mode Line writes the buffer back only when it is non-empty', 'read that completes a held partial line and ends exactly on the terminator, then one more line on that socket'),
+ 'C18-4': ('parsemsg strips the raw line', 'last argument ending in whitespace'),
+ 'C19-3': ('add_buffer returns early unless the NEW read contains the delimiter or ends in } or ]', 'delimiter bytes spread over two or three reads with nothing following'),
+ 'C19-4': ('Protocol.error_handler loses channel="*"', 'callee root component with an explicit channel other than "*" and a remote handler that raises'),
  'C18-2': ('_check_args rewritten with regexes using $ (matches before a trailing newline)', 'command / prefix / argument ending in a single LF'),
 }
 rows = []
